@@ -522,32 +522,33 @@ Qed.
 End FileBlock.
 
 (* ================= the whole plan ================= *)
-Section Main.
+(* Generic form: any invariant of the destination that is kept by the single commands of the plan and by
+   the observable states of a file transfer holds in every state a kill can leave behind and at the end. *)
+Section Generic.
 Variable fl : flavour.
 Variable ft : faults.
-Variable S : fs.       (* the source *)
-Variable D0 : fs.      (* the destination before the run *)
-
-(* C08's invariant: a file that carries a set time (as opposed to the time of its last write) is either
-   the file that was there before the run, or holds exactly the complete bytes of the source file *)
-Definition Good (s : dstate) : Prop :=
-  forall q t d, fget (d_fs s) q = Some (NFile (TSet t) d) ->
-    fget D0 q = Some (NFile (TSet t) d) \/ exists m, fget S q = Some (NFile m d).
+Variable S : fs.                       (* the source *)
+Variable Inv : dstate -> Prop.
+Variable okc : cmd -> Prop.            (* the single commands the plan may contain *)
+Variable okf : path -> Z -> Prop.      (* the files the plan may transfer, with the time they are given *)
+Hypothesis Inv_cmd : forall st c, okc c -> is_chunk c = false -> Inv st -> Inv (fst (doer_exec fl st c)).
+Hypothesis Inv_file : forall st p mt full m s, okf p mt -> fget S p = Some (NFile m full) -> Inv st ->
+  safe p mt full (fget (d_fs st) p) (d_fs st) s -> Inv s.
 
 (* the shape of what the boss sends: single commands, source reads, and per file the chunks of its bytes *)
-Inductive plan_ok : list bstep -> Prop :=
-| pk_nil : plan_ok []
-| pk_cmd c rest : is_chunk c = false -> plan_ok rest -> plan_ok (DestCmd c :: rest)
-| pk_fetch q rest : plan_ok rest -> plan_ok (SrcFetch q :: rest)
+Inductive gplan_ok : list bstep -> Prop :=
+| pk_nil : gplan_ok []
+| pk_cmd c rest : is_chunk c = false -> okc c -> gplan_ok rest -> gplan_ok (DestCmd c :: rest)
+| pk_fetch q rest : gplan_ok rest -> gplan_ok (SrcFetch q :: rest)
 | pk_file p mt chunks m rest :
-    chunks <> [] -> fget S p = Some (NFile m (concat chunks)) -> plan_ok rest ->
-    plan_ok (chunk_cmds p mt chunks ++ rest).
+    chunks <> [] -> fget S p = Some (NFile m (concat chunks)) -> okf p mt -> gplan_ok rest ->
+    gplan_ok (chunk_cmds p mt chunks ++ rest).
 
-Definition J (r : rstate) : Prop :=
-  no_through (d_events (rs_d r)) -> Good (rs_d r) /\ (d_open (rs_d r) = None \/ dead ft r).
+Definition GJ (r : rstate) : Prop :=
+  no_through (d_events (rs_d r)) -> Inv (rs_d r) /\ (d_open (rs_d r) = None \/ dead ft r).
 
 Definition Goal_for (r : rstate) (steps : list bstep) : Prop :=
-  (forall s, In s (steps_states fl ft r steps) -> no_through (d_events s) -> Good s) /\ J (run_steps fl ft r steps).
+  (forall s, In s (steps_states fl ft r steps) -> no_through (d_events s) -> Inv s) /\ GJ (run_steps fl ft r steps).
 
 Lemma vacuous_after r steps : ~ no_through (d_events (rs_d r)) -> Goal_for r steps.
 Proof.
@@ -558,7 +559,7 @@ Proof.
     rewrite El in Hnt. eapply nt_prefix; exact Hnt.
 Qed.
 
-Lemma dead_case r steps : Good (rs_d r) -> dead ft r -> Goal_for r steps.
+Lemma dead_case r steps : Inv (rs_d r) -> dead ft r -> Goal_for r steps.
 Proof.
   intros HG Hd. destruct (dead_frozen fl ft steps r Hd) as (F1 & F2 & F3). split.
   - intros s Hin _. rewrite (F1 s Hin). exact HG.
@@ -566,8 +567,8 @@ Proof.
 Qed.
 
 Lemma Goal_cons r s rest :
-  (forall x, In x (step_states fl ft r s) -> no_through (d_events x) -> Good x) ->
-  (J (run_step fl ft r s) -> Goal_for (run_step fl ft r s) rest) -> J (run_step fl ft r s) ->
+  (forall x, In x (step_states fl ft r s) -> no_through (d_events x) -> Inv x) ->
+  (GJ (run_step fl ft r s) -> Goal_for (run_step fl ft r s) rest) -> GJ (run_step fl ft r s) ->
   Goal_for r (s :: rest).
 Proof.
   intros H1 H2 HJ. destruct (H2 HJ) as [G1 G2]. split.
@@ -575,29 +576,15 @@ Proof.
   - exact G2.
 Qed.
 
-Lemma safe_good p mt full f0 m s :
-  (forall q t d, fget f0 q = Some (NFile (TSet t) d) ->
-     fget D0 q = Some (NFile (TSet t) d) \/ exists m, fget S q = Some (NFile m d)) ->
-  fget S p = Some (NFile m full) -> safe p mt full (fget f0 p) f0 s -> Good s.
+Theorem gplan_safe steps : gplan_ok steps -> forall r, GJ r -> Goal_for r steps.
 Proof.
-  intros HG HS [Hfr Hp] q t d Hq. destruct (path_eq_dec q p) as [->|Hne].
-  - destruct Hp as [Hp|[(k & dd & Hp)|Hp]].
-    + apply HG. rewrite <- Hp. exact Hq.
-    + rewrite Hp in Hq. discriminate.
-    + rewrite Hp in Hq. inversion Hq; subst. right. exists m. exact HS.
-  - apply HG. rewrite <- (Hfr q Hne). exact Hq.
-Qed.
-
-Theorem plan_safe steps : plan_ok steps -> forall r, J r -> Goal_for r steps.
-Proof.
-  induction 1 as [|c rest Hc Hrest IH|q rest Hrest IH|p mt chunks m rest Hne HS Hrest IH]; intros r HJ.
+  induction 1 as [|c rest Hc Hokc Hrest IH|q rest Hrest IH|p mt chunks m rest Hne HS Hokf Hrest IH]; intros r HJ.
   - split; [intros s []|exact HJ].
   - (* a single command that is not a chunk *)
     destruct (nt_dec (d_events (rs_d r))) as [Hnt|Hnt]; [|apply vacuous_after; exact Hnt].
     destruct (HJ Hnt) as [HG [Ho|Hd]]; [|apply dead_case; assumption].
-    destruct (nonchunk_exec fl (rs_d r) c Hc) as [Hopen Hstamped].
-    assert (HG1 : Good (fst (doer_exec fl (rs_d r) c))).
-    { intros q' t d Hq. apply HG. apply Hstamped. exact Hq. }
+    destruct (nonchunk_exec fl (rs_d r) c Hc) as [Hopen _].
+    assert (HG1 : Inv (fst (doer_exec fl (rs_d r) c))) by (apply Inv_cmd; assumption).
     apply Goal_cons; [|apply IH|].
     + intros x Hin _. unfold step_states in Hin. destruct (executes ft r (DestCmd c)) as [c0|] eqn:E; [|destruct Hin].
       apply executes_some in E. inversion E; subst c0.
@@ -616,15 +603,56 @@ Proof.
     destruct (HJ Hnt) as [HG [Ho|Hd]]; [|apply dead_case; assumption].
     assert (Hph : phase p (fget (d_fs (rs_d r)) p) (d_fs (rs_d r)) [] (rs_d r)) by (apply ph_start; auto).
     destruct (file_block fl ft p mt (concat chunks) (d_fs (rs_d r)) chunks [] r Hne eq_refl Hph) as [B1 B2].
-    assert (Hsg : forall s, safe p mt (concat chunks) (fget (d_fs (rs_d r)) p) (d_fs (rs_d r)) s -> Good s).
-    { intros s. apply (safe_good p mt (concat chunks) (d_fs (rs_d r)) m s); [exact HG|exact HS]. }
-    assert (HJ1 : J (run_steps fl ft r (chunk_cmds p mt chunks))).
+    assert (Hsg : forall s, safe p mt (concat chunks) (fget (d_fs (rs_d r)) p) (d_fs (rs_d r)) s -> Inv s).
+    { intros s. apply (Inv_file (rs_d r) p mt (concat chunks) m s); assumption. }
+    assert (HJ1 : GJ (run_steps fl ft r (chunk_cmds p mt chunks))).
     { intros Hnt1. destruct (B2 Hnt1) as [Hs1 Hod]. split; [apply Hsg; exact Hs1|exact Hod]. }
     destruct (IH _ HJ1) as [G1 G2]. split.
     + intros s Hin Hnts. rewrite steps_states_app in Hin. apply in_app_or in Hin as [Hin|Hin].
       * apply Hsg. apply B1; assumption.
       * apply G1; assumption.
     + rewrite run_steps_app. exact G2.
+Qed.
+
+End Generic.
+
+(* ================= instance 1 (C08): no stamped damage ================= *)
+Section Main.
+Variable fl : flavour.
+Variable ft : faults.
+Variable S : fs.       (* the source *)
+Variable D0 : fs.      (* the destination before the run *)
+
+(* C08's invariant: a file that carries a set time (as opposed to the time of its last write) is either
+   the file that was there before the run, or holds exactly the complete bytes of the source file *)
+Definition Good (s : dstate) : Prop :=
+  forall q t d, fget (d_fs s) q = Some (NFile (TSet t) d) ->
+    fget D0 q = Some (NFile (TSet t) d) \/ exists m, fget S q = Some (NFile m d).
+
+Definition any_cmd (c : cmd) : Prop := True.
+Definition any_file (p : path) (mt : Z) : Prop := True.
+Definition plan_ok : list bstep -> Prop := gplan_ok S any_cmd any_file.
+Definition J : rstate -> Prop := GJ ft Good.
+
+Lemma safe_good p mt full f0 m s :
+  (forall q t d, fget f0 q = Some (NFile (TSet t) d) ->
+     fget D0 q = Some (NFile (TSet t) d) \/ exists m, fget S q = Some (NFile m d)) ->
+  fget S p = Some (NFile m full) -> safe p mt full (fget f0 p) f0 s -> Good s.
+Proof.
+  intros HG HS [Hfr Hp] q t d Hq. destruct (path_eq_dec q p) as [->|Hne].
+  - destruct Hp as [Hp|[(k & dd & Hp)|Hp]].
+    + apply HG. rewrite <- Hp. exact Hq.
+    + rewrite Hp in Hq. discriminate.
+    + rewrite Hp in Hq. inversion Hq; subst. right. exists m. exact HS.
+  - apply HG. rewrite <- (Hfr q Hne). exact Hq.
+Qed.
+
+Theorem plan_safe steps : plan_ok steps -> forall r, J r ->
+  (forall s, In s (steps_states fl ft r steps) -> no_through (d_events s) -> Good s) /\ J (run_steps fl ft r steps).
+Proof.
+  intros Hp r HJ. apply (gplan_safe fl ft S Good any_cmd any_file); [| |exact Hp|exact HJ].
+  - intros st c _ Hc HG q t d Hq. apply HG. apply (nonchunk_exec fl st c Hc). exact Hq.
+  - intros st p mt full m s _ HS HG Hs. eapply safe_good; eauto.
 Qed.
 
 End Main.
